@@ -41,6 +41,8 @@ impl Run {
             .create(true)
             .open(&self.path)?;
 
+        #[cfg(pnordahl_monorail_verif)]
+        crate::verif::point("run_save_after_truncate");
         let data = serde_json::to_vec(self)?;
         file.write_all(&data)?;
         Ok(())
